@@ -1503,6 +1503,7 @@ type numChunk struct {
 	d      int
 	k0, k1 int64
 	mirror bool // also sweep -k1..-k0, judged against the model's answers for k0..k1 through sign symmetry
+	fast   bool // the model's digest without the run-time assertion of IsRnd (a theorem: c19_rnd_sound)
 }
 
 // mirrored maps the observation of -v to what the model predicts for v (theorems newScaled_negate,
@@ -1523,6 +1524,9 @@ func (o numObs) mirrored() numObs {
 // down to single values and reports those.
 func numSweepChunk(s *numStats, dr *h.Driver, c numChunk, crossParse bool) {
 	line := fmt.Sprintf("srange %d %d %d 1", c.d, c.k0, c.k1)
+	if c.fast {
+		line = fmt.Sprintf("srangef %d %d %d 1", c.d, c.k0, c.k1)
+	}
 	ans := make(chan string, 1)
 	go func() { ans <- dr.AskWithin(line, numRangeTimeout) }()
 	hh, hm := uint64(numDigest0), uint64(numDigest0)
@@ -1557,7 +1561,7 @@ func numSweepChunk(s *numStats, dr *h.Driver, c numChunk, crossParse bool) {
 	if c.mirror && got == want && hm != hh {
 		// the negative half differs from the mirrored model: compare it directly
 		q := newNumStats()
-		numSweepChunk(q, dr, numChunk{c.d, -c.k1, -c.k0, false}, false)
+		numSweepChunk(q, dr, numChunk{c.d, -c.k1, -c.k0, false, false}, false)
 		if q.mismN == 0 {
 			s.mismatch(line, fmt.Sprintf("mirrored digest %d", hm), want, "negative half differs from the model's mirrored answers, but agrees with its direct answers: sign symmetry of the model broken")
 		}
@@ -1585,9 +1589,9 @@ func numSweepChunk(s *numStats, dr *h.Driver, c numChunk, crossParse bool) {
 	// bisect (evaluations of the halves are not counted again)
 	q := newNumStats()
 	mid := c.k0 + (c.k1-c.k0)/2
-	numSweepChunk(q, dr, numChunk{c.d, c.k0, mid, false}, false)
+	numSweepChunk(q, dr, numChunk{c.d, c.k0, mid, false, false}, false)
 	if q.mismN == 0 {
-		numSweepChunk(q, dr, numChunk{c.d, mid + 1, c.k1, false}, false)
+		numSweepChunk(q, dr, numChunk{c.d, mid + 1, c.k1, false, false}, false)
 	}
 	s.mismN += q.mismN
 	s.mism = append(s.mism, q.mism...)
@@ -1656,6 +1660,22 @@ func numParallel(args []string, n int, job func(s *numStats, dr *h.Driver, i int
 		}
 	}
 	return total
+}
+
+// numRunOpsParallel runs single ops (replay format) on the workers, in chunks of `chunk` ops, each worker with its
+// own driver; the statistics are merged in the order of the ops, so the result does not depend on the number of
+// workers. The ops are drawn (sequentially, from the seeded generator) before this is called.
+func numRunOpsParallel(args []string, ops []string, chunk int) *numStats {
+	n := (len(ops) + chunk - 1) / chunk
+	return numParallel(args, n, func(s *numStats, dr *h.Driver, i int) {
+		hi := (i + 1) * chunk
+		if hi > len(ops) {
+			hi = len(ops)
+		}
+		for _, op := range ops[i*chunk : hi] {
+			numRunOp(s, dr, op)
+		}
+	})
 }
 
 // numRandomBits draws a finite double "across magnitudes" (see the distribution table in the evidence).
@@ -1787,8 +1807,15 @@ func TestNumeric(t *testing.T) {
 	phase("corpus")
 
 	// ---- (1) the exhaustive decimal grid, by digest, in parallel
+	// quick: every k up to 2*10^5, both signs through the model. thorough: both signs through the model up to 2*10^6;
+	// the positive half through the model and the negative half through the proved sign symmetry up to 6*10^6; from
+	// there to 2*10^7 one block of 10^4 consecutive k in seven (the conversion is a function of k's digits and of the
+	// binade of k*10^-d: nothing changes between 6*10^6 and 2*10^7 that the blocks, the random decimals up to 2^50 and
+	// the directed search would not meet). Beyond 2*10^6 the model's digest is computed without the run-time
+	// assertion of IsRnd (a theorem, asserted on all the rest).
 	K := int64(h.Scale(200000, 20000000))
 	direct := int64(h.Scale(200000, 2000000)) // both signs through the driver up to here, mirrored beyond
+	denseK := int64(h.Scale(200000, 6000000)) // every k up to here, blocks beyond
 	const chunk = 10000
 	var chunks []numChunk
 	for dd := 0; dd <= 4; dd++ {
@@ -1797,14 +1824,21 @@ func TestNumeric(t *testing.T) {
 			if k1 > direct {
 				k1 = direct
 			}
-			chunks = append(chunks, numChunk{dd, k0, k1, false})
+			chunks = append(chunks, numChunk{dd, k0, k1, false, false})
 		}
+		blk := int64(0)
 		for k0 := direct + 1; k0 <= K; k0 += chunk {
 			k1 := k0 + chunk - 1
 			if k1 > K {
 				k1 = K
 			}
-			chunks = append(chunks, numChunk{dd, k0, k1, true})
+			if k0 > denseK {
+				blk++
+				if (blk+int64(dd))%7 != 0 {
+					continue
+				}
+			}
+			chunks = append(chunks, numChunk{dd, k0, k1, true, true})
 		}
 	}
 	quick := h.Tier() == "quick"
@@ -1823,7 +1857,7 @@ func TestNumeric(t *testing.T) {
 	}
 	gs.flush(r)
 	r.Traces += len(chunks)
-	r.Info["exhaustive_grid"] = fmt.Sprintf("all k*10^-d, 0<=d<=4, |k|<=%d: %d values, compared by digest in %d chunks; both signs computed by the model for |k|<=%d, beyond that the negative half is compared with the model's answers for the positive half through the sign-symmetry theorems of Spine.Num", K, gridN, len(chunks), direct)
+	r.Info["exhaustive_grid"] = fmt.Sprintf("all k*10^-d, 0<=d<=4, |k|<=%d, and one block of %d consecutive k in seven up to |k|<=%d: %d values, compared by digest in %d chunks; both signs computed by the model for |k|<=%d, beyond that the negative half is compared with the model's answers for the positive half through the sign-symmetry theorems of Spine.Num", denseK, chunk, K, gridN, len(chunks), direct)
 	r.Info["grid_spec_failures"] = gridFails
 	r.Info["grid_minimal_witnesses"] = gridWit
 	phase("grid")
@@ -1831,7 +1865,7 @@ func TestNumeric(t *testing.T) {
 	// ---- (2) random decimals with large k (below 2^50) and random doubles across magnitudes
 	rng := h.Rng(19)
 	nDec := h.Scale(60000, 2000000)
-	nFlt := h.Scale(200000, 10000000)
+	nFlt := h.Scale(200000, 4000000)
 	const batch = 500
 	type decJob struct {
 		d  int
@@ -2000,14 +2034,15 @@ func TestNumeric(t *testing.T) {
 	r.Floor("random doubles in the property's range that are not integers", fs.inputs["float:in-range-non-integer"], nFlt, 0.5)
 
 	// GetValue on arbitrary pairs (what a peer may send), |scale| <= 4
-	vs := newNumStats()
+	var gvOps []string
 	for i := 0; i < h.Scale(20000, 200000); i++ {
 		n := rng.Int63n(1 << uint(1+rng.Intn(62)))
 		if rng.Intn(2) == 0 {
 			n = -n
 		}
-		numRunOp(vs, d, fmt.Sprintf("getval %d %d", n, rng.Intn(9)-4))
+		gvOps = append(gvOps, fmt.Sprintf("getval %d %d", n, rng.Intn(9)-4))
 	}
+	vs := numRunOpsParallel(args, gvOps, 500)
 	vs.flush(r)
 	phase("random-doubles")
 
@@ -2015,7 +2050,7 @@ func TestNumeric(t *testing.T) {
 	const day = int64(864000) // in units of 100 ms
 	type durJob struct{ z0, z1, step int64 }
 	var durJobs []durJob
-	dense := int64(h.Scale(2000000, 20000000)) // every multiple up to 55 h / 23 days
+	dense := int64(h.Scale(2000000, 10000000)) // every multiple up to 55 h / 11.5 days
 	for z := int64(0); z < dense; z += 200000 {
 		durJobs = append(durJobs, durJob{z, z + 199999, 1})
 	}
@@ -2090,11 +2125,10 @@ func TestNumeric(t *testing.T) {
 	us.flush(r)
 	r.Traces += len(durJobs)
 	// boundaries, single values with field comparison, geometric part to 30 years
-	bs := newNumStats()
+	var bsOps []string
 	for _, c := range []int64{600, 36000, 3220 * 36000, 32204 * 3600, 32205 * 3600, 3276 * 36000, 3277 * 36000, 400 * day, 3276 * day, 3277 * day} {
 		for dz := int64(-3); dz <= 3; dz++ {
-			numOneDur(bs, d, c+dz)
-			numOneDur(bs, d, -(c + dz))
+			bsOps = append(bsOps, fmt.Sprintf("dur %d", c+dz), fmt.Sprintf("dur %d", -(c+dz)))
 		}
 	}
 	for i := 0; i < h.Scale(20000, 200000); i++ {
@@ -2102,29 +2136,28 @@ func TestNumeric(t *testing.T) {
 		if rng.Intn(2) == 0 {
 			z = -z
 		}
-		numOneDur(bs, d, z)
+		bsOps = append(bsOps, fmt.Sprintf("dur %d", z))
 	}
 	for z := float64(400 * day); z < float64(30*366*day); z *= 1.0 + 1.0/float64(h.Scale(400, 4000)) {
 		zi := int64(z)
-		numOneDur(bs, d, zi)
-		numOneDur(bs, d, -zi)
-		numOneDur(bs, d, zi/day*day) // whole days
-		numOneDur(bs, d, zi/600*600) // whole minutes
+		bsOps = append(bsOps, fmt.Sprintf("dur %d", zi), fmt.Sprintf("dur %d", -zi),
+			fmt.Sprintf("dur %d", zi/day*day), // whole days
+			fmt.Sprintf("dur %d", zi/600*600)) // whole minutes
 	}
 	for i := 0; i < h.Scale(5000, 50000); i++ {
 		ns := rng.Int63n(400 * day * int64(hundredMs))
 		if rng.Intn(2) == 0 {
 			ns = -ns
 		}
-		numOneDurNs(bs, d, ns)
+		bsOps = append(bsOps, fmt.Sprintf("durns %d", ns))
 	}
+	bs := numRunOpsParallel(args, bsOps, 500)
 	// the textual level: texts written (boundaries, random, geometric to 292 years), texts a peer may send
 	// (the exhaustive grid of designator subsets, random well-formed and damaged texts)
-	ts := newNumStats()
+	var tsOps []string
 	for _, c := range []int64{0, 600, 36000, 7 * day, 70 * day, 3220 * 36000, 32204 * 3600, 32205 * 3600, 3276 * 36000, 3277 * 36000, 400 * day, 3276 * day, 3277 * day, 3283 * day} {
 		for dz := int64(-3); dz <= 3; dz++ {
-			numOneDurText(ts, d, (c+dz)*int64(hundredMs))
-			numOneDurText(ts, d, -(c+dz)*int64(hundredMs))
+			tsOps = append(tsOps, fmt.Sprintf("dtext %d", (c+dz)*int64(hundredMs)), fmt.Sprintf("dtext %d", -(c+dz)*int64(hundredMs)))
 		}
 	}
 	for i := 0; i < h.Scale(20000, 200000); i++ {
@@ -2142,16 +2175,28 @@ func TestNumeric(t *testing.T) {
 		if rng.Intn(2) == 0 {
 			ns = -ns
 		}
-		numOneDurText(ts, d, ns)
+		tsOps = append(tsOps, fmt.Sprintf("dtext %d", ns))
 	}
 	grid := numDurTextGrid()
+	parseOp := func(tx string) {
+		if tx == "" || strings.ContainsAny(tx, " \t\r\n") {
+			return
+		}
+		for i := 0; i < len(tx); i++ {
+			if tx[i] >= 0x80 {
+				return
+			}
+		}
+		tsOps = append(tsOps, "dparse "+tx)
+	}
 	for _, tx := range grid {
-		numOneDurParse(ts, d, tx)
+		parseOp(tx)
 	}
 	nTxt := h.Scale(30000, 300000)
 	for i := 0; i < nTxt; i++ {
-		numOneDurParse(ts, d, numRandomDurText(rng))
+		parseOp(numRandomDurText(rng))
 	}
+	ts := numRunOpsParallel(args, tsOps, 500)
 	acc, ref := ts.evals["durparse:accepted"], ts.evals["durparse:refused"]
 	ts.flush(r)
 	r.Floor("duration texts the library accepts", acc, acc+ref, 0.4)
@@ -2169,7 +2214,7 @@ func TestNumeric(t *testing.T) {
 	phase("durations")
 
 	// ---- (4) instants across years 1-9999, dates, times of day (monitor only)
-	is := newNumStats()
+	var isOps []string
 	const minSec, maxSec = int64(-62135596800), int64(253402300799)
 	for i := 0; i < h.Scale(60000, 600000); i++ {
 		sec := minSec + rng.Int63n(maxSec-minSec+1)
@@ -2180,21 +2225,21 @@ func TestNumeric(t *testing.T) {
 				off += 1800
 			}
 		}
-		numOneInstant(is, sec, off)
+		isOps = append(isOps, fmt.Sprintf("instant %d %d", sec, off))
 		if i%4 == 0 {
-			numOneDate(is, sec)
-			numOneTimeOfDay(is, sec)
+			isOps = append(isOps, fmt.Sprintf("date %d", sec), fmt.Sprintf("tod %d", sec))
 		}
 		if i%8 == 0 && sec < maxSec-1 {
-			numOneInstantNs(is, sec, rng.Int63n(1000000000))
+			isOps = append(isOps, fmt.Sprintf("instantns %d %d", sec, rng.Int63n(1000000000)))
 		}
 	}
 	// every second around the edges of the range, leap days, year boundaries
 	for _, c := range []int64{minSec, maxSec - 7200, 0, 951782400 - 3600, 4107542400 - 3600, 946684800 - 3600, -2208988800 - 3600} {
 		for ds := int64(0); ds < 7200; ds += 7 {
-			numOneInstant(is, c+ds, 0)
+			isOps = append(isOps, fmt.Sprintf("instant %d 0", c+ds))
 		}
 	}
+	is := numRunOpsParallel(args, isOps, 1000)
 	is.flush(r)
 	// observation outside the statement of C19 (information only): the layouts "2006-01-02+07:00" and
 	// "15:04:05+07:00" are not zone layouts of package time ("+07:00" only matches itself)
